@@ -464,6 +464,28 @@ def corruptions(g, key, base, rng, quick):
     return out
 
 
+_MODEL = {}
+
+
+def with_resolvable_refs(v, key, d):
+    """generated 2.0 observables carry no container references; where the type demands at least one of several members and the only candidates are references, the first
+    one is supplied (it resolves: the scope is declared to hold everything)"""
+    if v not in _MODEL:
+        _MODEL[v] = json.load(open(lex.model_file(v)))["types"]
+    t = _MODEL[v].get(key)
+    if not t or not isinstance(d, dict):
+        return d
+    kinds = {p["name"]: p for p in t["properties"]}
+    out = dict(d)
+    for c in t["constraints"]:
+        if c["k"] == "at_least_one" and not any(n in out for n in c["of"]):
+            for n in c["of"]:
+                if kinds.get(n, {}).get("kind") == "objectreference":
+                    out[n] = "7"
+                    break
+    return out
+
+
 def emit_one(v, key, how, d, entry, prime=False):
     line = {"kind": "emit", "v": v, "key": key, "ctx": how, "entry": entry, "strict": True, "ok": False, "family": True, "exc": "none", "doc": {"key": key, "props": []}, "input": d}
     if prime:
@@ -478,6 +500,10 @@ def emit_one(v, key, how, d, entry, prime=False):
             obj = parse(d, v, observable=is_obs20(key, v))
         elif entry == "parse_dict":
             obj = parse(d, v, text=False, observable=is_obs20(key, v))
+        elif entry == "parse_refs_resolvable":
+            # a STIX 2.0 observable built on its own, told that whatever it refers to exists in its scope (what a container does for its members, without the container's wrapping)
+            import stix2
+            obj = stix2.parse_observable(json.dumps(with_resolvable_refs(v, key, d)), _valid_refs=["*"], allow_custom=False, version=v)
         elif entry == "container_member":
             # a STIX 2.0 observable where it normally lives: as a member of an observed-data container (other code paths than a stand-alone observable)
             od = {"type": "observed-data", "id": "observed-data--11111111-1111-4111-8111-111111111111", "created": "2020-01-01T00:00:00.000Z", "modified": "2020-01-01T00:00:00.000Z",
@@ -538,7 +564,7 @@ def emit_lines(chk, quick, junk=True):
                 else:
                     foreign_cs = []
                 if quick:
-                    always = [c for c in cs if ":ref_object" in c[0] or ":ref_text_braces" in c[0] or c[0].startswith(("constraint:", "satisfied_by_falsy:")) or "hash_value_digits_as_number" in c[0]
+                    always = [c for c in cs if ":ref_object" in c[0] or ":ref_text_braces" in c[0] or c[0].startswith(("constraint:", "satisfied_by_falsy:", "granular_markings:selector_absent_property", "granular_markings:selector_index_past_end", "granular_markings:selector_second_marking_bad")) or "hash_value_digits_as_number" in c[0]
                               or c[0].endswith((":wrongkind:bool", ":wrongkind:int")) and any(p["name"] == c[0].split(":")[0] and p["kind"] in ("integer", "float", "boolean") for p in g.types[key]["properties"])]
                     cs = rng.sample(cs, min(len(cs), 28)) + always
                 cs = cs + foreign_cs
@@ -547,6 +573,8 @@ def emit_lines(chk, quick, junk=True):
                     ens = [entry] if entry else ["parse", "constructor", "parse_dict"]
                     if is_obs20(key, v) and (not quick or rng.random() < 0.5 or ":ref_" in how):
                         ens = ens + ["container_member"]
+                    if is_obs20(key, v) and (not quick or how.startswith(("constraint:", "foreign_", "satisfied_by_falsy:")) or rng.random() < 0.3):
+                        ens = ens + ["parse_refs_resolvable"]
                     for en in ens:
                         ln = emit_one(v, key, how, d, en, prime=(":ref_" in how or rng.random() < 0.35))
                         if ln is not None:
